@@ -12,6 +12,7 @@ import (
 	cmnBadger "github.com/oasisprotocol/oasis-core/go/common/badger"
 	"github.com/oasisprotocol/oasis-core/go/common/cbor"
 	"github.com/oasisprotocol/oasis-core/go/common/logging"
+	"github.com/oasisprotocol/oasis-core/go/common/verifhook"
 	"github.com/oasisprotocol/oasis-core/go/storage/mkvs/db/api"
 	"github.com/oasisprotocol/oasis-core/go/storage/mkvs/node"
 	"github.com/oasisprotocol/oasis-core/go/storage/mkvs/writelog"
@@ -454,9 +455,11 @@ func (d *badgerNodeDB) Finalize(roots []node.Root) error { // nolint: gocyclo
 	if err := batch.Flush(); err != nil {
 		return err
 	}
+	verifhook.At("pathbadger.Finalize.afterCopyFlush")
 	if err := batchMeta.Flush(); err != nil {
 		return err
 	}
+	verifhook.At("pathbadger.Finalize.afterCopyMetaFlush")
 	batch = d.db.NewWriteBatchAt(versionToTs(version))
 	defer batch.Cancel()
 	batchMeta = d.db.NewWriteBatchAt(tsMetadata)
@@ -501,13 +504,16 @@ func (d *badgerNodeDB) Finalize(roots []node.Root) error { // nolint: gocyclo
 	if err := batch.Flush(); err != nil {
 		return err
 	}
+	verifhook.At("pathbadger.Finalize.afterRemoveFlush")
 	if err := batchMeta.Flush(); err != nil {
 		return err
 	}
+	verifhook.At("pathbadger.Finalize.afterRemoveMetaFlush")
 
 	// Update last finalized version.
 	d.meta.setLastFinalizedVersion(version)
 	d.meta.commit(tx)
+	verifhook.At("pathbadger.Finalize.afterMetaCommit")
 
 	// Clean multipart metadata if there is any.
 	if d.multipartVersion != multipartVersionNone {
@@ -620,13 +626,16 @@ func (d *badgerNodeDB) Prune(version uint64) error {
 	if err := batch.Flush(); err != nil {
 		return fmt.Errorf("mkvs/pathbadger: failed to flush batch: %w", err)
 	}
+	verifhook.At("pathbadger.Prune.afterBatchFlush")
 	if err := batchMeta.Flush(); err != nil {
 		return fmt.Errorf("mkvs/pathbadger: failed to flush batch: %w", err)
 	}
+	verifhook.At("pathbadger.Prune.afterMetaFlush")
 
 	// Update metadata.
 	d.meta.setEarliestVersion(version + 1)
 	d.meta.commit(tx)
+	verifhook.At("pathbadger.Prune.afterMetaCommit")
 
 	// Discard everything invalidated at or below the _new_ earliest version. E.g. there is no need
 	// to keep around any keys that were removed at `version + 1`.
@@ -714,6 +723,7 @@ func (d *badgerNodeDB) NewBatch(oldRoot node.Root, version uint64, chunk bool) (
 			return nil, err
 		}
 		d.meta.commit(tx)
+		verifhook.At("pathbadger.NewBatch.afterSeqReserve")
 		// Start a fresh index.
 		lastIndex = new(atomic.Uint32)
 		lastIndex.Store(indexRootNode)
@@ -918,6 +928,7 @@ func (ba *badgerBatch) Commit(root node.Root) error {
 		return fmt.Errorf("mkvs/pathbadger: failed to set pending root seqno: %w", err)
 	}
 	ba.db.meta.commit(tx)
+	verifhook.At("pathbadger.Commit.afterSeqNoCommit")
 
 	if !ba.chunk {
 		// Store updated nodes (only needed until the version is finalized).
@@ -941,9 +952,11 @@ func (ba *badgerBatch) Commit(root node.Root) error {
 	if err := ba.batMeta.Flush(); err != nil {
 		return fmt.Errorf("mkvs/pathbadger: failed to flush batch: %w", err)
 	}
+	verifhook.At("pathbadger.Commit.afterMetaFlush")
 	if err := ba.bat.Flush(); err != nil {
 		return fmt.Errorf("mkvs/pathbadger: failed to flush batch: %w", err)
 	}
+	verifhook.At("pathbadger.Commit.afterNodeFlush")
 
 	ba.Reset()
 	return ba.BaseBatch.Commit(root)
